@@ -82,6 +82,43 @@ P["C09"] = dict(cat="proof",
          "(regular_bf, tu_bf), not proved for all sizes; the BFS signing algorithm is not modelled structurally.",
     tech="extracted Coq judge over proved oracles (tu_bf = det definition, regular_bf = signable-to-TU) + observed fixpoint behaviour", ref="DESIGN.md C09")
 
+P["C03"] = dict(cat="proof",
+    text="Coq-verified tree checker: check_tree accepts exactly trees all of whose nodes pass check_node; an accepted node recomposes: "
+         "1-sum block diagonal under bijective maps, 2-/Delta-/Y-/3-sum by the block formulas with the recorded special lines, pivot child "
+         "= pivot model, SP child = submatrix left by genuine reductions; arities/leaf types as documented. Tie: every tree returned by "
+         "CMRtuTest / CMRregularTest (all parameters incl. stop flags) and after complete/refine histories is dumped and checked.",
+    note=NOTE_COMMON + "Y-sum children of pivot nodes are accepted although doc/seymour.md lists only leaves, Delta- and 3-sums (strategy YP produces them).",
+    tech="Coq-verified certificate checker for decomposition trees run on every dumped tree", ref="DESIGN.md C03")
+P["C04"] = dict(cat="proof",
+    text="Coq: stored graphs/cographs of accepted nodes satisfy the fundamental-cycle / network specification (verified checkers of C05/C06), "
+         "stored determinant minors have |det| >= 2, R10 nodes represent R10, non-zero flags agree with the proved oracles where these apply. "
+         "Tie: every node of every dumped tree (constructLeafGraphs / constructAllGraphs / planarityCheck / stop flags in the parameter product).",
+    note=NOTE_COMMON + "flags at nodes larger than the oracle bounds (36 entries; 4 rows/columns for (co)graphicness) are not compared with a definition; "
+         "the bottom-up propagation rules rest on classical closure facts that are not formalised.",
+    tech="Coq-verified certificate checkers + definition-level oracles on small nodes", ref="DESIGN.md C04")
+P["C10"] = dict(cat="proof",
+    text="The Coq judge verifies that M' is the stated transform of M (permutation, scaling, transposition, adding a reducible line, "
+         "submatrix, pivot by the pivot model) and then checks the verdict relation (equal / swapped / yes=>yes) across ten recognizers and "
+         "five decomposition strategies, on seeds up to 120 lines. Two different verdicts on related presentations contradict the "
+         "closure property whatever the true answer is.",
+    note=NOTE_COMMON + "the closure theorems themselves (TU, SP heredity, balanced permutation invariance are proved; graphic/network closure "
+         "and pivot invariance are classical facts not formalised here) - see DESIGN.md C10. 'Camion-signed' is compared only on TU instances.",
+    tech="Coq-checked transform relation + metamorphic comparison of verdicts", ref="DESIGN.md C10")
+P["C12"] = dict(cat="proof",
+    text="Coq: the composition model is the documented block formula for 2-/Delta-/Y-/3-sums (all sizes, special lines anywhere), shapes of "
+         "accepted calls, judge soundness for compose (formula result or refusal) and for the decompose-then-compose round trip (components of "
+         "documented shape recompose to the original under the returned maps; library compose agrees). Tie: valid and invalid operands; "
+         "all bipartitions with the required rank profile of small matrices, random and structured larger ones, characteristic 2 and 3.",
+    note=NOTE_COMMON + "TU preservation of sums/components is checked per instance by the proved oracle (<= 7x7), not proved in general; for Delta/Y-sums only "
+         "on separations whose parts have >= 4 elements and admit the connecting path on both sides.",
+    tech="Coq proof of block-formula specs + differential correspondence", ref="DESIGN.md C12")
+P["C20"] = dict(cat="proof",
+    text="Every returned matrix in every stream is decoded from raw CSR arrays under the Coq predicate csr_wf; writers' output is parsed by the "
+         "Coq grammar of doc/file-formats.md and read back; readers are compared with the Coq parser on valid and malformed byte strings.",
+    note=NOTE_COMMON + "fscanf token-prefix quirks (e.g. '1-', '+1', '1e3') and negative header counts are excluded or recorded as findings; edge-list and "
+         "submatrix files and the cmr-matrix tool are not yet covered.",
+    tech="Coq parser/printer model + CSR well-formedness predicate run on every output", ref="DESIGN.md C20")
+
 ORDER = ["C%02d" % i for i in range(1, 21)]
 
 
